@@ -88,7 +88,13 @@ func (n *vnode) divisors(out *[]*vnode) {
 // verifNumCell: a row column: int, float64, NULL or absent. Numeric payloads are 4-bit signed integers,
 // floats are such an integer plus 0.5 (exact, so that every intermediate result is finite).
 func verifNumCell(row map[string]any, env map[string]vval, name string) {
-	switch zzverif.Choose(name+".kind", 4) {
+	k := 0
+	if zzverif.Param("intonly", 0) == 1 {
+		k = []int{0, 2}[zzverif.Choose(name+".kind", 2)] // int or NULL
+	} else {
+		k = zzverif.Choose(name+".kind", 4)
+	}
+	switch k {
 	case 0:
 		i := int(int8(zzverif.NondetU64(name+".i", 4)<<4) >> 4)
 		row[name] = i
